@@ -14,22 +14,206 @@ use std::collections::BTreeMap;
 use std::io::Write;
 use std::process::{Command, Stdio};
 
-pub const RULE: &str = "inputs: (1) format literals — every string of length <= L over a 28-symbol alphabet with 1-4 byte chars, plus seeded random long/Unicode/huge-number/unbalanced literals — through the literal parser and through Display/Debug expansions at struct, variant, field and enum level; (2) attribute bodies: documented templates per derive, mutated (delete/duplicate/swap/wrap/replace token trees) and random token streams from a 60-token vocabulary, nesting <= 6 (plus a deep-nesting family to depth 64), on container/variant/field positions; (3) item shapes (unit/tuple/named structs, enums incl. zero-variant, unions, generics, exotic field types) x all 50 derives. Oracle: outcome must be Ok, Err(diagnostic) or a deliberate panic (explicit panic!/assert! line in impl/src); non-trivial = the input is rejected (error path) or contains a multi-byte character or an attribute; distinct by (derive, item text)";
+pub const RULE: &str = "inputs: (1) format literals — every string of length <= L over a 28-symbol alphabet with 1-4 byte chars, plus seeded random long/Unicode/huge-number/unbalanced literals — through the literal parser and through Display/Debug expansions at struct, variant, field and enum level; (2) attribute bodies: documented templates per derive, mutated (delete/duplicate/swap/wrap/replace token trees) and random token streams from a 60-token vocabulary, nesting <= 6 (plus a deep-nesting family to depth 64; every fourth random body has 6..14 top-level tokens), From/Into tuple types of arity 0..5 against 0..3 fields, on container/variant/field positions incl. two attributes on one variant/field; the same items with field types and/or attribute arguments in None-delimited groups (as substituted by macro_rules!); format literals also spelled raw / fully escaped / suffixed / as byte and C strings; (3) item shapes (unit/tuple/named structs, enums incl. zero-variant, unions, generics, exotic field types, type/variant/field names with underscores, digits, raw and non-ASCII identifiers, every meta form of #[repr]) x all 50 derives; bounded time: scaling families for the argument scanner, the literal parser and the item size, and a 20 s per-case watchdog. Oracle: outcome must be Ok, Err(diagnostic) or a deliberate panic (explicit panic!/assert! line in impl/src); non-trivial = the input is rejected (error path) or contains a multi-byte character or an attribute; distinct by (derive, item text)";
 
 #[derive(Clone, Debug)]
 pub struct Case {
     pub derive: String,
     pub item: String,
+    /// 0 = the item as written; 1..=3 = the item as it arrives from a `macro_rules!` expansion: field types (1), the
+    /// arguments of its own attributes (2) or both (3) wrapped in None-delimited groups (`$t:ty`, `$e:expr` fragments)
+    pub wrap: u8,
+}
+
+impl Case {
+    pub fn plain(derive: &str, item: String) -> Case {
+        Case { derive: derive.to_string(), item, wrap: 0 }
+    }
 }
 
 fn canon(c: &Case) -> String {
-    format!("{}|{}", c.derive, c.item)
+    format!("{}|{}|{}", c.derive, c.item, c.wrap)
+}
+
+thread_local! {
+    /// input classes of the case being generated (drained into the evidence labels by `run_part`; bounded because the
+    /// generators are also used by C19 and the fuzz target, which never drain it)
+    static CLASSES: std::cell::RefCell<Vec<&'static str>> = const { std::cell::RefCell::new(Vec::new()) };
+}
+
+fn mark(class: &'static str) {
+    CLASSES.with(|c| {
+        let mut c = c.borrow_mut();
+        if c.len() < 64 && !c.contains(&class) {
+            c.push(class);
+        }
+    });
+}
+
+/// input classes a quick run must contain at least this often (otherwise the run is inconclusive)
+const CLASS_FLOORS: [(&str, u64); 8] = [
+    ("class:second-attribute-on-a-variant-or-field", 5_000),
+    ("class:from-into-tuple-type-of-any-arity", 2_000),
+    ("class:identifiers-beyond-ascii-words", 10_000),
+    ("class:repr-meta-forms", 3_000),
+    ("class:literal-not-plainly-spelled", 5_000),
+    ("class:pointer-placeholder-naming-a-field", 500),
+    ("class:long-attribute-body", 2_000),
+    ("class:none-delimited-groups", 30_000),
+];
+
+/// a token stream the way rustc hands over a substituted `$x:ty` / `$x:expr` fragment
+fn none_group(ts: TokenStream) -> TokenStream {
+    TokenStream::from(TokenTree::Group(proc_macro2::Group::new(proc_macro2::Delimiter::None, ts)))
+}
+
+/// wraps every top-level comma-separated segment of an attribute body (except string literals and single punctuation) in a
+/// None-delimited group
+fn wrap_segments(ts: TokenStream) -> TokenStream {
+    let mut out = TokenStream::new();
+    let mut cur: Vec<TokenTree> = vec![];
+    let flush = |cur: &mut Vec<TokenTree>, out: &mut TokenStream| {
+        if cur.is_empty() {
+            return;
+        }
+        let only_lit = cur.len() == 1 && matches!(cur[0], TokenTree::Literal(_));
+        let seg: TokenStream = cur.drain(..).collect();
+        if only_lit {
+            out.extend(seg);
+        } else {
+            out.extend(none_group(seg));
+        }
+    };
+    for tt in ts {
+        match &tt {
+            TokenTree::Punct(p) if p.as_char() == ',' => {
+                flush(&mut cur, &mut out);
+                out.extend([tt]);
+            }
+            _ => cur.push(tt),
+        }
+    }
+    flush(&mut cur, &mut out);
+    out
+}
+
+/// the derive input as it arrives when the item was produced by a `macro_rules!` expansion (see `Case::wrap`)
+pub fn macro_expanded(item: &syn::DeriveInput, attr_name: Option<&str>, wrap: u8) -> syn::DeriveInput {
+    let mut item = item.clone();
+    let wrap_ty = |f: &mut syn::Field| {
+        let ty = f.ty.clone();
+        f.ty = syn::Type::Group(syn::TypeGroup { group_token: Default::default(), elem: Box::new(ty) });
+    };
+    let wrap_attrs = |attrs: &mut Vec<syn::Attribute>| {
+        for a in attrs.iter_mut() {
+            if attr_name.is_some_and(|n| a.path().is_ident(n)) {
+                if let syn::Meta::List(l) = &mut a.meta {
+                    l.tokens = wrap_segments(l.tokens.clone());
+                }
+            }
+        }
+    };
+    let types = wrap & 1 != 0;
+    let args = wrap & 2 != 0;
+    if args {
+        wrap_attrs(&mut item.attrs);
+    }
+    let mut fields_of = |fields: &mut syn::Fields| {
+        for f in fields.iter_mut() {
+            if types {
+                wrap_ty(f);
+            }
+            if args {
+                wrap_attrs(&mut f.attrs);
+            }
+        }
+    };
+    match &mut item.data {
+        syn::Data::Struct(s) => fields_of(&mut s.fields),
+        syn::Data::Enum(e) => {
+            for v in e.variants.iter_mut() {
+                if args {
+                    wrap_attrs(&mut v.attrs);
+                }
+                fields_of(&mut v.fields);
+            }
+        }
+        syn::Data::Union(u) => {
+            for f in u.fields.named.iter_mut() {
+                if types {
+                    wrap_ty(f);
+                }
+                if args {
+                    wrap_attrs(&mut f.attrs);
+                }
+            }
+        }
+    }
+    item
+}
+
+/// Per-case wall-clock watchdog of the worker processes: a case that runs longer than `LIMIT_S` makes the worker print
+/// `{"hang": ..}` and exit, so that a hang (or a super-linear blow-up on a random input) ends the check with the input
+/// in hand instead of blocking it. Normal cases take micro- to milliseconds; the limit is generous because the machine
+/// may be loaded.
+pub mod watchdog {
+    use std::sync::Mutex;
+    use std::time::Instant;
+
+    pub const LIMIT_S: u64 = 20;
+    static CUR: Mutex<Option<(Instant, String, String, u8)>> = Mutex::new(None);
+
+    pub struct Guard;
+    impl Drop for Guard {
+        fn drop(&mut self) {
+            if let Ok(mut g) = CUR.lock() {
+                *g = None;
+            }
+        }
+    }
+    pub fn enter(c: &super::Case) -> Guard {
+        if let Ok(mut g) = CUR.lock() {
+            *g = Some((Instant::now(), c.derive.clone(), c.item.clone(), c.wrap));
+        }
+        Guard
+    }
+    pub fn enter_literal(l: &str) -> Guard {
+        if let Ok(mut g) = CUR.lock() {
+            *g = Some((Instant::now(), "<literal parser>".into(), l.to_string(), 0));
+        }
+        Guard
+    }
+    /// starts the watching thread (worker processes only)
+    pub fn start() {
+        std::thread::spawn(|| loop {
+            std::thread::sleep(std::time::Duration::from_millis(250));
+            let hung = match CUR.lock() {
+                Ok(g) => g.as_ref().and_then(|(t0, derive, item, wrap)| {
+                    let s = t0.elapsed().as_secs_f64();
+                    (s > LIMIT_S as f64).then(|| serde_json::json!({"hang": {"derive": derive, "item": item, "wrap": wrap, "secs": s}}))
+                }),
+                Err(_) => None,
+            };
+            if let Some(v) = hung {
+                use std::io::Write;
+                let out = std::io::stdout();
+                let mut w = out.lock();
+                let _ = writeln!(w, "{v}");
+                let _ = w.flush();
+                std::process::exit(3);
+            }
+        });
+    }
 }
 
 /// Evaluates one case; returns Some((panic info)) on an internal failure.
 pub fn eval_case(c: &Case) -> Result<(&'static str, Option<dm::PanicInfo>), String> {
     let d = Derive::by_name(&c.derive).ok_or("unknown derive")?;
-    let item: syn::DeriveInput = syn::parse_str(&c.item).map_err(|e| format!("generator: item does not parse: {e}"))?;
+    let mut item: syn::DeriveInput = syn::parse_str(&c.item).map_err(|e| format!("generator: item does not parse: {e}"))?;
+    if c.wrap != 0 {
+        item = macro_expanded(&item, d.info().attr, c.wrap);
+    }
+    let _guard = watchdog::enter(c);
     let out = dm::expand(d, &item);
     Ok(match out {
         Outcome::Ok(ts) => {
@@ -66,6 +250,26 @@ pub fn gen_plain_item(d: &mut Dice) -> String {
     gen_item(d, None)
 }
 
+/// One item carrying attributes of a dice-chosen attribute-taking derive on container / variant / field positions
+/// (shared with C19 and the fuzz target `expand_any`).
+pub fn gen_attributed_case(d: &mut Dice) -> Case {
+    let with_attr: Vec<Derive> = Derive::all().filter(|d| d.info().attr.is_some()).collect();
+    let der = with_attr[d.pick(with_attr.len())];
+    let name = der.info().attr.unwrap();
+    let dn = der.name();
+    let f = move |d: &mut Dice, pos: usize| -> Option<String> {
+        // attributes appear on a position with moderate probability so that most items carry 1-2 of them
+        let p = [55, 35, 35][pos];
+        if d.chance(p) {
+            Some(attr_body(dn, d))
+        } else {
+            None
+        }
+    };
+    let item = gen_item(d, Some((name, &f)));
+    Case { derive: dn.to_string(), item, wrap: 0 }
+}
+
 fn gen_item(d: &mut Dice, attr: Option<(&str, &dyn Fn(&mut Dice, usize) -> Option<String>)>) -> String {
     // positions: 0 container, 1 variant, 2 field
     let at = |d: &mut Dice, pos: usize| -> String {
@@ -81,44 +285,113 @@ fn gen_item(d: &mut Dice, attr: Option<(&str, &dyn Fn(&mut Dice, usize) -> Optio
     let wh = if !generics.is_empty() && d.chance(20) { " where T: Clone" } else { "" };
     let fty = |d: &mut Dice| FIELD_TYPES[d.weighted(&[8, 6, 2, 1, 2, 2, 2, 2, 1, 1, 1, 1, 1, 1, 1, 1, 1, 1, 1, 1, 1, 1, 1, 1])].to_string();
     let names = ["a", "b", "source", "backtrace", "r#type", "_0"];
+    // identifiers beyond plain ASCII words (underscores, digits, raw, non-ASCII XID incl. characters whose case mapping
+    // changes their length): the expanders re-case names and build new identifiers from them
+    let odd_fields = ["_a", "__", "ünï", "a1", "ßs", "r#match"];
+    let with_attr = attr.is_some();
+    // a variant / field may carry a second attribute of the derive (the merge / "single attribute" paths of the positions)
+    let at2 = |d: &mut Dice, pos: usize| -> String {
+        let a = at(d, pos);
+        if with_attr && d.chance(18) {
+            let b = at(d, pos);
+            if !a.is_empty() && !b.is_empty() {
+                mark("class:second-attribute-on-a-variant-or-field");
+            }
+            format!("{a}{b}")
+        } else {
+            a
+        }
+    };
     let fields = |d: &mut Dice, at: &dyn Fn(&mut Dice, usize) -> String| -> String {
+        let _ = at;
         match d.pick(4) {
             0 => String::new(),
             1 => {
                 let n = d.range(0, 3);
-                format!("({})", (0..n).map(|_| format!("{}{}", at(d, 2), fty(d))).collect::<Vec<_>>().join(", "))
+                format!("({})", (0..n).map(|_| format!("{}{}", at2(d, 2), fty(d))).collect::<Vec<_>>().join(", "))
             }
             _ => {
                 let n = d.range(0, 3);
-                format!(" {{ {} }}", (0..n).map(|i| format!("{}{}: {}", at(d, 2), names[(i + d.pick(3)) % names.len()], fty(d))).collect::<Vec<_>>().join(", "))
+                let odd = d.chance(12);
+                if odd && n > 0 {
+                    mark("class:identifiers-beyond-ascii-words");
+                }
+                format!(
+                    " {{ {} }}",
+                    (0..n)
+                        .map(|i| {
+                            let name = if odd { odd_fields[(i + d.pick(4)) % odd_fields.len()] } else { names[(i + d.pick(3)) % names.len()] };
+                            format!("{}{}: {}", at2(d, 2), name, fty(d))
+                        })
+                        .collect::<Vec<_>>()
+                        .join(", ")
+                )
             }
         }
     };
     let cont = at(d, 0);
     let cont2 = if d.chance(15) { at(d, 0) } else { String::new() };
-    let repr = if d.chance(15) { ["#[repr(u8)] ", "#[repr(C)] ", "#[repr(i64, C)] ", "#[repr(transparent)] "][d.pick(4)] } else { "" };
+    // `#[repr(..)]` is read by TryFrom (utils.rs `ReprInt`): every meta form, hints with arguments, several hints
+    const REPRS: [&str; 14] = [
+        "#[repr(u8)] ",
+        "#[repr(C)] ",
+        "#[repr(i64, C)] ",
+        "#[repr(transparent)] ",
+        "#[repr(align(8))] ",
+        "#[repr(C, packed(2), u8)] ",
+        "#[repr] ",
+        "#[repr = \"C\"] ",
+        "#[repr(u8(x))] ",
+        "#[repr(\"C\")] ",
+        "#[repr()] ",
+        "#[repr(u8)] #[repr(i16)] ",
+        "#[repr(u8 = 1)] ",
+        "#[repr(align(4))] #[repr(i8)] #[repr(C)] ",
+    ];
+    let repr_p = if attr.as_ref().is_some_and(|(n, _)| *n == "try_from") { 60 } else { 15 };
+    let repr = if d.chance(repr_p) {
+        let i = d.pick(REPRS.len());
+        if i >= 4 {
+            mark("class:repr-meta-forms");
+        }
+        REPRS[i]
+    } else {
+        ""
+    };
+    let sname = if d.chance(10) {
+        mark("class:identifiers-beyond-ascii-words");
+        ["_S", "__", "S1_b", "Ünï", "r#type", "İx"][d.pick(6)]
+    } else {
+        "S"
+    };
     match d.weighted(&[5, 5, 1]) {
         0 => {
             let f = fields(d, &at);
             let semi = if f.starts_with(" {") { "" } else { ";" };
             if f.starts_with(" {") {
-                format!("{cont}{cont2}{repr}struct S{generics}{wh}{f}")
+                format!("{cont}{cont2}{repr}struct {sname}{generics}{wh}{f}")
             } else {
-                format!("{cont}{cont2}{repr}struct S{generics}{f}{wh}{semi}")
+                format!("{cont}{cont2}{repr}struct {sname}{generics}{f}{wh}{semi}")
             }
         }
         1 => {
             let nv = d.range(0, 3);
             let vnames = ["A", "B", "r#Type", "FooBar"];
+            let odd_variants = ["_A", "A1_b", "İx", "Ünï", "__", "XMLHttp", "a", "ǅx"];
+            let odd = d.chance(12);
+            if odd && nv > 0 {
+                mark("class:identifiers-beyond-ascii-words");
+            }
+            let off = d.pick(8);
             let vs: Vec<String> = (0..nv)
                 .map(|i| {
-                    let a = at(d, 1);
+                    let a = at2(d, 1);
                     let f = fields(d, &at);
                     let disc = if d.chance(15) { [" = 1", " = -3", " = 1 << 2"][d.pick(3)] } else { "" };
-                    format!("{a}{}{f}{disc}", vnames[i % 4])
+                    format!("{a}{}{f}{disc}", if odd { odd_variants[(off + i) % 8] } else { vnames[i % 4] })
                 })
                 .collect();
-            format!("{cont}{cont2}{repr}enum E{generics}{wh} {{ {} }}", vs.join(", "))
+            format!("{cont}{cont2}{repr}enum {}{generics}{wh} {{ {} }}", if sname == "S" { "E" } else { sname }, vs.join(", "))
         }
         _ => {
             let n = d.range(1, 2);
@@ -144,6 +417,7 @@ fn templates(derive: &str) -> &'static [&'static str] {
             "(\"{}\", _0)", "(\"{a} {b}\")", "(\"{_0:?} {}\", self.x())", "(bound(T: Clone))", "(bounds(T: core::fmt::Display, Vec<T>: Clone))",
             "(rename_all = \"snake_case\")", "(\"{_variant}: {}\", _0)", "(\"{x}\", x = a.len())", "(\"{:>1$}\", _0, 7)", "(\"{0:.*}\", 2, _0)",
             "(fmt = \"{}\", _0)", "(fmt = \"{}\", \"_0\")", "(bound = \"T: Clone\")", "(\"{}\", _0 == _1)", "(\"{}\", _0 as M<i32, T>)",
+            "(\"{_0:p} {}\", _0)", "(\"{a:p} {b:p}\")", "(\"{_0:p}\", _0 = 1)",
         ],
         "Debug" => &["(skip)", "(ignore)", "(\"{}\", _0)", "(\"{a:?}\")", "(bound(T: Clone))", "(bounds(T: core::fmt::Debug))", "(\"{}\", a.len())", "(fmt = \"{}\", _0)", "(bound = \"T: Clone\")"],
         "From" => &["", "(forward)", "(skip)", "(ignore)", "(i32, u8)", "((i32, u8))", "(&'a str, String)", "(types(i32))", "(types(1))", "(types(\"i32\"))", "(types(i32, u8), forward)"],
@@ -161,8 +435,18 @@ fn templates(derive: &str) -> &'static [&'static str] {
     }
 }
 
+fn fam_is_fmt(derive: &str) -> bool {
+    matches!(derive, "Display" | "Binary" | "Octal" | "LowerHex" | "UpperHex" | "LowerExp" | "UpperExp" | "Pointer" | "Debug")
+}
+
 fn random_tokens(d: &mut Dice, depth: usize) -> String {
-    let n = d.range(0, 5);
+    // mostly short bodies; every fourth is long (argument lists of a dozen tokens)
+    let n = if depth >= 2 && d.chance(25) {
+        mark("class:long-attribute-body");
+        d.range(6, 14)
+    } else {
+        d.range(0, 5)
+    };
     let mut out = vec![];
     for _ in 0..n {
         if depth > 0 && d.chance(20) {
@@ -221,9 +505,38 @@ fn mutate(body: &str, d: &mut Dice) -> String {
     body.to_string()
 }
 
+/// From / Into: a tuple type of arity 0..5 (the structs / variants have 0..3 fields: one element less, as many, one or two
+/// more — the arity diagnostic of `FieldsExt::validate_type`), bare, several of them, or wrapped in a reference kind
+fn tuple_arity_body(derive: &str, d: &mut Dice) -> String {
+    let elems = ["u8", "u16", "u32", "i64", "String", "T", "&'a str"];
+    let tuple = |d: &mut Dice| -> String {
+        let k = d.range(0, 5);
+        let inner: Vec<&str> = (0..k).map(|_| elems[d.pick(elems.len())]).collect();
+        match k {
+            1 if d.chance(50) => format!("({},)", inner[0]),
+            _ => format!("({})", inner.join(", ")),
+        }
+    };
+    mark("class:from-into-tuple-type-of-any-arity");
+    let a = tuple(d);
+    match (derive, d.pick(4)) {
+        ("Into", 0) => format!("({}({a}))", ["owned", "ref", "ref_mut"][d.pick(3)]),
+        ("Into", 1) => format!("(owned({a}), ref({}))", tuple(d)),
+        (_, 2) => format!("({a}, {})", tuple(d)),
+        _ => format!("({a})"),
+    }
+}
+
 fn attr_body(derive: &str, d: &mut Dice) -> String {
     let t = templates(derive);
     let all: Vec<&str> = Derive::all().flat_map(|x| templates(x.name()).iter().copied()).collect();
+    if matches!(derive, "From" | "Into") && d.chance(18) {
+        return tuple_arity_body(derive, d);
+    }
+    if fam_is_fmt(derive) && d.chance(8) {
+        // a format literal followed by a long random argument list (`<`, `>`, `|`, `::`, `->`, `as`, groups)
+        return format!("({}, {})", ["\"{}\"", "\"{0} {1}\"", "\"{x}\""][d.pick(3)], random_tokens(d, 3));
+    }
     match d.weighted(&[3, 4, 2, 2, 1]) {
         0 if !t.is_empty() => t[d.pick(t.len())].to_string(),
         1 if !t.is_empty() => mutate(t[d.pick(t.len())], d),
@@ -249,6 +562,7 @@ fn literal_adversarial(d: &mut Dice) -> String {
         "{:1$.340282366920938463463374607431768211456}", "{:18446744073709551616}", "{0:65536}", "é", "→", "𝒳", "\u{301}", "\u{202e}", "\u{10ffff}",
         "\u{0}", "\\", "\"", "\n", "\t", " ", "{_variant}", "{_0}", "{_1:p}", "{self}", "{r#a}", "{a.b}", "{:#?}", "{:x?}", "{:é^9}", "{:𝒳<}", "{:}<5}",
         "{:{<5}", "{_0\u{2003}}", "{a\u{a0}:>4}", "{:?\u{3000}}", "\u{2003}", "\u{a0}", "{0:0$}", "{:00$}", "{w$}", "{:w$.p$}", "{:+#0", "{:-}", "{:e}", "{:E}", "{:p}", "{:b}", "{:o}", "{:X}", "{:X?}", "{:?x}", "{9a}", "{a9}", "{_}",
+        "{_0:p}", "{a:p}", "{_0:p} {_0}", "{a:p}{w}",
     ];
     let n = d.range(1, 8);
     let mut s = String::new();
@@ -270,19 +584,64 @@ fn lit_tok(s: &str) -> String {
     proc_macro2::Literal::string(s).to_string()
 }
 
+/// the literal in one of the ways Rust lets one write it (0 = the plain escaped string)
+fn lit_spelling(s: &str, how: usize) -> String {
+    match how {
+        1 => {
+            // raw string with enough `#`
+            if s.contains('\r') {
+                return lit_tok(s);
+            }
+            let mut n = 0;
+            while s.contains(&format!("\"{}", "#".repeat(n))) {
+                n += 1;
+            }
+            format!("r{h}\"{s}\"{h}", h = "#".repeat(n))
+        }
+        2 => {
+            // every character as an escape
+            let mut o = String::from("\"");
+            for c in s.chars() {
+                if (c as u32) < 0x80 {
+                    o.push_str(&format!("\\x{:02x}", c as u32));
+                } else {
+                    o.push_str(&format!("\\u{{{:x}}}", c as u32));
+                }
+            }
+            o.push('"');
+            o
+        }
+        3 => format!("{}suffix", lit_tok(s)),
+        4 => format!("b{}", proc_macro2::Literal::string(&s.chars().filter(|c| c.is_ascii()).collect::<String>())),
+        5 => format!("c{}", proc_macro2::Literal::string(&s.replace('\0', ""))),
+        6 => {
+            // a line continuation and a newline inside the literal
+            format!("\"\\\n    {}", &lit_tok(s)[1..])
+        }
+        _ => lit_tok(s),
+    }
+}
+
 /// literal placed at struct / variant / field / enum level of Display and Debug
 fn literal_items(lit: &str, d: &mut Dice) -> Vec<Case> {
-    let l = lit_tok(lit);
     let mut v = vec![];
     let args = ["", ", _0", ", a = _0", ", _0, _0", ", *_0 + 1"][d.pick(5)];
-    v.push(Case { derive: "Display".into(), item: format!("#[display({l}{args})] struct S<T>(T);") });
-    v.push(Case { derive: "Display".into(), item: format!("#[display({l})] struct S<T> {{ a: T, w: usize }}") });
-    v.push(Case { derive: "Display".into(), item: format!("enum E<T> {{ #[display({l}{args})] A(T), B }}") });
-    v.push(Case { derive: "Display".into(), item: format!("#[display({l})] enum E<T> {{ A(T), #[display(\"b\")] B }}") });
-    v.push(Case { derive: "Debug".into(), item: format!("#[debug({l}{args})] struct S<T>(T);") });
-    v.push(Case { derive: "Debug".into(), item: format!("struct S<T> {{ #[debug({l})] a: T, b: i32 }}") });
-    v.push(Case { derive: "Debug".into(), item: format!("enum E<T> {{ #[debug({l}{args})] A(T), B {{ #[debug({l})] a: i32 }} }}") });
-    v.push(Case { derive: "LowerHex".into(), item: format!("#[lower_hex({l}{args})] union U {{ a: i32 }}") });
+    let how = d.weighted(&[12, 2, 2, 1, 1, 1, 1]);
+    if how != 0 {
+        mark("class:literal-not-plainly-spelled");
+    }
+    if lit.contains("{_0:p") || lit.contains("{a:p") {
+        mark("class:pointer-placeholder-naming-a-field");
+    }
+    let l = lit_spelling(lit, how);
+    v.push(Case::plain("Display", format!("#[display({l}{args})] struct S<T>(T);")));
+    v.push(Case::plain("Display", format!("#[display({l})] struct S<T> {{ a: T, w: usize }}")));
+    v.push(Case::plain("Display", format!("enum E<T> {{ #[display({l}{args})] A(T), B }}")));
+    v.push(Case::plain("Display", format!("#[display({l})] enum E<T> {{ A(T), #[display(\"b\")] B }}")));
+    v.push(Case::plain("Debug", format!("#[debug({l}{args})] struct S<T>(T);")));
+    v.push(Case::plain("Debug", format!("struct S<T> {{ #[debug({l})] a: T, b: i32 }}")));
+    v.push(Case::plain("Debug", format!("enum E<T> {{ #[debug({l}{args})] A(T), B {{ #[debug({l})] a: i32 }} }}")));
+    v.push(Case::plain("LowerHex", format!("#[lower_hex({l}{args})] union U {{ a: i32 }}")));
     v
 }
 
@@ -300,6 +659,14 @@ pub fn run_part(seed: u64, tier: Tier, part: usize, nparts: usize, progress: &mu
     let seen_loc: std::cell::RefCell<std::collections::HashSet<String>> = Default::default();
     let eval = |c: &Case, source: &str, st: &mut PartStats| {
         st.evaluations += 1;
+        CLASSES.with(|cl| {
+            for l in cl.borrow_mut().drain(..) {
+                *st.labels.entry(l.to_string()).or_insert(0) += 1;
+            }
+        });
+        if c.wrap != 0 {
+            *st.labels.entry("class:none-delimited-groups".to_string()).or_insert(0) += 1;
+        }
         match eval_case(c) {
             Err(e) => {
                 *st.labels.entry(format!("{source}:generator_unparsable")).or_insert(0) += 1;
@@ -318,7 +685,7 @@ pub fn run_part(seed: u64, tier: Tier, part: usize, nparts: usize, progress: &mu
                     let loc = format!("{}:{}", p.file.rsplit("impl/src/").next().unwrap_or(&p.file), p.line);
                     if seen_loc.borrow_mut().insert(format!("{loc}|{}", c.derive)) {
                         st.violations.push(json!({
-                            "derive": c.derive, "item": c.item, "panic_msg": p.msg, "panic_file": p.file, "panic_line": p.line, "loc": loc, "source": source,
+                            "derive": c.derive, "item": c.item, "wrap": c.wrap, "panic_msg": p.msg, "panic_file": p.file, "panic_line": p.line, "loc": loc, "source": source,
                         }));
                     }
                 }
@@ -336,7 +703,10 @@ pub fn run_part(seed: u64, tier: Tier, part: usize, nparts: usize, progress: &mu
         }
         st.evaluations += 1;
         k += 1;
-        let r = dm::guarded(|| super::lit::dm_view(l));
+        let r = {
+            let _g = watchdog::enter_literal(l);
+            dm::guarded(|| super::lit::dm_view(l))
+        };
         match r {
             Ok(Some(_)) => *st.labels.entry("parser:accepts".into()).or_insert(0) += 1,
             Ok(None) => *st.labels.entry("parser:rejects".into()).or_insert(0) += 1,
@@ -363,7 +733,7 @@ pub fn run_part(seed: u64, tier: Tier, part: usize, nparts: usize, progress: &mu
 
     // (1b) adversarial literals, (2) attribute bodies, (3) item shapes: proptest dice, seeded per part
     let n_lit = tier.pick(16_000, 160_000) / nparts;
-    let n_attr = tier.pick(240_000, 2_000_000) / nparts;
+    let n_attr = tier.pick(220_000, 2_000_000) / nparts;
     let n_shape = tier.pick(24_000, 200_000) / nparts;
     let mut runner = runner_for(seed, "C18", part as u32 + 1);
     let dice = proptest::collection::vec(proptest::num::u16::ANY, 96..=96);
@@ -371,7 +741,11 @@ pub fn run_part(seed: u64, tier: Tier, part: usize, nparts: usize, progress: &mu
         let mut d = Dice::new(t.current());
         let l = literal_adversarial(&mut d);
         st.evaluations += 1;
-        if let Err(p) = dm::guarded(|| super::lit::dm_view(&l)) {
+        let parsed = {
+            let _g = watchdog::enter_literal(&l);
+            dm::guarded(|| super::lit::dm_view(&l))
+        };
+        if let Err(p) = parsed {
             let loc = format!("{}:{}", p.file.rsplit("impl/src/").next().unwrap_or(&p.file), p.line);
             if seen_loc.borrow_mut().insert(format!("{loc}|parser")) {
                 st.violations.push(json!({"derive": "<literal parser>", "item": l, "panic_msg": p.msg, "panic_file": p.file, "panic_line": p.line, "loc": loc, "source": "parser"}));
@@ -382,25 +756,28 @@ pub fn run_part(seed: u64, tier: Tier, part: usize, nparts: usize, progress: &mu
         }
     }
     progress("adversarial literals done");
-    let with_attr: Vec<Derive> = Derive::all().filter(|d| d.info().attr.is_some()).collect();
     for t in draw(&mut runner, &dice, n_attr) {
         let mut d = Dice::new(t.current());
-        let der = with_attr[d.pick(with_attr.len())];
-        let name = der.info().attr.unwrap();
-        let dn = der.name();
-        let f = move |d: &mut Dice, pos: usize| -> Option<String> {
-            // attributes appear on a position with moderate probability so that most items carry 1-2 of them
-            let p = [55, 35, 35][pos];
-            if d.chance(p) {
-                Some(attr_body(dn, d))
-            } else {
-                None
-            }
-        };
-        let item = gen_item(&mut d, Some((name, &f)));
-        eval(&Case { derive: dn.to_string(), item }, "attribute", &mut st);
+        let c = gen_attributed_case(&mut d);
+        eval(&c, "attribute", &mut st);
     }
     progress("attributes done");
+    // (2b) the same kinds of items as they arrive from a `macro_rules!` expansion: field types / attribute arguments
+    // in None-delimited groups
+    let n_wrap = tier.pick(40_000, 300_000) / nparts;
+    for t in draw(&mut runner, &dice, n_wrap) {
+        let mut d = Dice::new(t.current());
+        let wrap = 1 + d.pick(3) as u8;
+        let mut c = if d.chance(70) {
+            gen_attributed_case(&mut d)
+        } else {
+            let der = Derive(d.pick(dm::DERIVES.len()));
+            Case::plain(der.name(), gen_item(&mut d, None))
+        };
+        c.wrap = wrap;
+        eval(&c, "none_groups", &mut st);
+    }
+    progress("none-delimited groups done");
     for t in draw(&mut runner, &dice, n_shape) {
         let mut d = Dice::new(t.current());
         let item = gen_item(&mut d, None);
@@ -408,7 +785,7 @@ pub fn run_part(seed: u64, tier: Tier, part: usize, nparts: usize, progress: &mu
         let off = d.pick(5);
         for k in 0..10 {
             let der = Derive(off * 10 + k);
-            eval(&Case { derive: der.name().to_string(), item: item.clone() }, "shape", &mut st);
+            eval(&Case::plain(der.name(), item.clone()), "shape", &mut st);
         }
     }
     progress("shapes done");
@@ -418,17 +795,52 @@ pub fn run_part(seed: u64, tier: Tier, part: usize, nparts: usize, progress: &mu
 /// scaling families for the bounded-time clause; returns (family, n, seconds)
 fn timing_families() -> Vec<(String, usize, f64)> {
     let mut out = vec![];
-    let fams: Vec<(&str, Box<dyn Fn(usize) -> String>)> = vec![
-        ("a<a<a..", Box::new(|n| format!("#[display(\"{{}}\", {})] struct S(i32);", vec!["a"; n].join(" < ")))),
-        ("|a|a|a..", Box::new(|n| format!("#[display(\"{{}}\", {})] struct S(i32);", vec!["a"; n].join(" | ")))),
-        ("{{{{..", Box::new(|n| format!("#[display({})] struct S(i32);", lit_tok(&"{".repeat(n))))),
-        ("::<::<..", Box::new(|n| format!("#[display(\"{{}}\", {})] struct S(i32);", "a::<".repeat(n)))),
+    let disp = |body: String| format!("#[display({body})] struct S(i32);");
+    let fams: Vec<(&str, &str, Box<dyn Fn(usize) -> String>)> = vec![
+        // argument scanner
+        ("a<a<a..", "Display", Box::new(move |n| disp(format!("\"{{}}\", {}", vec!["a"; n].join(" < "))))),
+        ("|a|a|a..", "Display", Box::new(move |n| disp(format!("\"{{}}\", {}", vec!["a"; n].join(" | "))))),
+        ("::<::<..", "Display", Box::new(move |n| disp(format!("\"{{}}\", {}", "a::<".repeat(n))))),
+        ("a,a,a.. (n arguments)", "Display", Box::new(move |n| disp(format!("\"{{}}\", {}", vec!["a"; n].join(", "))))),
+        // literal parser and placeholder bookkeeping
+        ("{{{{..", "Display", Box::new(move |n| disp(lit_tok(&"{".repeat(n))))),
+        ("}}}}..", "Display", Box::new(move |n| disp(lit_tok(&"}".repeat(n))))),
+        ("{:>{:>..", "Display", Box::new(move |n| disp(lit_tok(&"{:>".repeat(n))))),
+        ("{a{a..", "Display", Box::new(move |n| disp(lit_tok(&"{a".repeat(n))))),
+        ("{0:0$}{0:0$}..", "Display", Box::new(move |n| disp(format!("{}, _0", lit_tok(&"{0:0$}".repeat(n)))))),
+        ("{:1$.2$}..", "Display", Box::new(move |n| disp(format!("{}, _0, 1, 2", lit_tok(&"{:1$.2$}".repeat(n)))))),
+        ("{}{}.. with n arguments", "Display", Box::new(move |n| disp(format!("{}{}", lit_tok(&"{}".repeat(n)), ", _0".repeat(n))))),
+        ("{x}{x}.. named", "Display", Box::new(move |n| disp(format!("{}, x = _0", lit_tok(&"{x}".repeat(n)))))),
+        ("{_0}{_0}.. field", "Display", Box::new(move |n| format!("#[display({})] struct S<T>(T);", lit_tok(&"{_0}".repeat(n))))),
+        // item size
+        (
+            "Display enum, n variants under a shared format",
+            "Display",
+            Box::new(|n| format!("#[display(\"<{{_variant}}>\")] enum E<T> {{ {} }}", (0..n).map(|i| format!("#[display(\"v{{_0}}\")] V{i}(T)")).collect::<Vec<_>>().join(", "))),
+        ),
+        ("Debug struct, n fields with formats", "Debug", Box::new(|n| format!("struct S<T> {{ {} }}", (0..n).map(|i| format!("#[debug(\"{{f{i}}}\")] f{i}: T")).collect::<Vec<_>>().join(", ")))),
+        ("Display bound(..) with n predicates", "Display", Box::new(|n| format!("#[display(\"x\")] #[display(bound({}))] struct S<T>(T);", (0..n).map(|i| format!("T: Tr{i}")).collect::<Vec<_>>().join(", ")))),
+        ("From with n types", "From", Box::new(|n| format!("#[from({})] struct S(i32);", (0..n).map(|i| format!("T{i}")).collect::<Vec<_>>().join(", ")))),
+        ("Into with n types per kind", "Into", Box::new(|n| {
+            let tys = (0..n).map(|i| format!("T{i}")).collect::<Vec<_>>().join(", ");
+            format!("#[into(owned({tys}), ref({tys}), ref_mut({tys}))] struct S(i32);")
+        })),
+        ("TryInto enum, n variants over n types", "TryInto", Box::new(|n| format!("#[try_into(owned, ref, ref_mut)] enum E {{ {} }}", (0..n).map(|i| format!("V{i}(T{})", i / 2)).collect::<Vec<_>>().join(", ")))),
+        ("FromStr enum, n variants", "FromStr", Box::new(|n| format!("enum E {{ {} }}", (0..n).map(|i| format!("V{i}, v{i}")).collect::<Vec<_>>().join(", ")))),
+        // (quadratic in the number of type parameters: measured at n/4)
+        ("Error enum, n/4 generic sources", "Error", Box::new(|n| {
+            let n = n / 4;
+            format!("enum E<{}> {{ {} }}", (0..n).map(|i| format!("A{i}")).collect::<Vec<_>>().join(", "), (0..n).map(|i| format!("V{i} {{ source: A{i} }}")).collect::<Vec<_>>().join(", "))
+        })),
+        ("Mul struct, n field types", "Mul", Box::new(|n| format!("struct S({});", (0..n).map(|i| format!("T{i}")).collect::<Vec<_>>().join(", ")))),
+        ("IsVariant enum, n variants", "IsVariant", Box::new(|n| format!("enum E {{ {} }}", (0..n).map(|i| format!("FooBar{i}(i32)")).collect::<Vec<_>>().join(", ")))),
+        ("AsRef struct, n marked fields", "AsRef", Box::new(|n| format!("struct S {{ {} }}", (0..n).map(|i| format!("#[as_ref] f{i}: T{i}")).collect::<Vec<_>>().join(", ")))),
     ];
-    for (name, f) in fams {
+    for (name, derive, f) in fams {
         for n in [500usize, 1000, 2000] {
             let src = f(n);
             let t0 = std::time::Instant::now();
-            let _ = eval_case(&Case { derive: "Display".into(), item: src });
+            let _ = eval_case(&Case::plain(derive, src));
             out.push((name.to_string(), n, t0.elapsed().as_secs_f64()));
         }
     }
@@ -439,11 +851,10 @@ fn timing_families() -> Vec<(String, usize, f64)> {
 /// when two expansions of the same input differ.
 pub fn fuzz_one(dice: Vec<u16>) -> Option<(String, String, String, Option<String>)> {
     let mut d = Dice::new(dice);
-    let with_attr: Vec<Derive> = Derive::all().filter(|d| d.info().attr.is_some()).collect();
     let c = match d.pick(4) {
         0 => {
             let item = gen_item(&mut d, None);
-            Case { derive: Derive(d.pick(dm::DERIVES.len())).name().to_string(), item }
+            Case::plain(Derive(d.pick(dm::DERIVES.len())).name(), item)
         }
         1 => {
             let l = literal_adversarial(&mut d);
@@ -451,20 +862,7 @@ pub fn fuzz_one(dice: Vec<u16>) -> Option<(String, String, String, Option<String
             let k = d.pick(v.len());
             v[k].clone()
         }
-        _ => {
-            let der = with_attr[d.pick(with_attr.len())];
-            let name = der.info().attr.unwrap();
-            let dn = der.name();
-            let f = move |d: &mut Dice, pos: usize| -> Option<String> {
-                if d.chance([55, 35, 35][pos]) {
-                    Some(attr_body(dn, d))
-                } else {
-                    None
-                }
-            };
-            let item = gen_item(&mut d, Some((name, &f)));
-            Case { derive: dn.to_string(), item }
-        }
+        _ => gen_attributed_case(&mut d),
     };
     match eval_case(&c) {
         Ok((_, Some(p))) => {
@@ -496,6 +894,20 @@ pub fn timing_main() -> i32 {
 }
 
 pub fn worker_main(args: &[String]) -> i32 {
+    watchdog::start();
+    if args.first().map(|s| s.as_str()) == Some("one") {
+        // args: one <derive> <wrap> <item>: a single case under the watchdog (reproduction of a reported hang)
+        let c = Case { derive: args.get(1).cloned().unwrap_or_default(), wrap: args.get(2).and_then(|s| s.parse().ok()).unwrap_or(0), item: args.get(3).cloned().unwrap_or_default() };
+        let t0 = std::time::Instant::now();
+        if c.derive == "<literal parser>" {
+            let _g = watchdog::enter_literal(&c.item);
+            let _ = dm::guarded(|| super::lit::dm_view(&c.item));
+        } else {
+            let _ = eval_case(&c);
+        }
+        println!("{}", json!({"done": true, "secs": t0.elapsed().as_secs_f64()}));
+        return 0;
+    }
     // args: seed tier part nparts
     let seed: u64 = args.first().and_then(|s| s.parse().ok()).unwrap_or(0);
     let tier = if args.get(1).map(|s| s.as_str()) == Some("thorough") { Tier::Thorough } else { Tier::Quick };
@@ -544,7 +956,7 @@ pub fn run(ctx: &Ctx) -> Report {
     rep.evidence.max_samples = 12;
     rep.evidence.assumptions = vec![
         "a panic is deliberate iff raised at an explicit panic!/assert! line of impl/src (read from the tree under test)".into(),
-        "token nesting bounded at 64; bounded time attacked through four scaling families only".into(),
+        "token nesting bounded at 64; bounded time: scaling families (argument scanner, literal parser, item size) judged by growth worse than cubic and > 5 s at n = 2000, plus a 20 s wall-clock watchdog per case in the workers (a case over the limit ends the run as inconclusive with the input reported)".into(),
     ];
     let nparts = 16usize;
     let exe = std::env::current_exe().unwrap();
@@ -574,11 +986,15 @@ pub fn run(ctx: &Ctx) -> Report {
         };
         let text = String::from_utf8_lossy(&out.stdout);
         let mut done = false;
+        let mut hang: Option<Value> = None;
         let mut last_progress = String::from("start");
         for line in text.lines() {
             let Ok(v) = serde_json::from_str::<Value>(line) else { continue };
             if let Some(p) = v["progress"].as_str() {
                 last_progress = p.to_string();
+            }
+            if v["hang"].is_object() {
+                hang = Some(v["hang"].clone());
             }
             if v["done"].as_bool() == Some(true) {
                 done = true;
@@ -599,6 +1015,27 @@ pub fn run(ctx: &Ctx) -> Report {
                 }
             }
         }
+        if let Some(h) = hang {
+            // the watchdog ended the worker: inconclusive, with the input in hand. The case is run again twice on its own;
+            // whether its cost grows super-linearly has to be decided with a scaling family (`timing_families`).
+            let (derive, item, wrap) = (h["derive"].as_str().unwrap_or("").to_string(), h["item"].as_str().unwrap_or("").to_string(), h["wrap"].as_u64().unwrap_or(0));
+            let mut again = 0;
+            // (only the first stopped case of a run is reproduced: each reproduction costs up to the wall limit)
+            let reruns = if rep.evidence.labels.contains_key("watchdog:case_over_wall_limit") { 0 } else { 2 };
+            for _ in 0..reruns {
+                let o = Command::new(&exe).args(["worker", "c18", "one", &derive, &wrap.to_string(), &item]).stdout(Stdio::piped()).stderr(Stdio::null()).output();
+                if o.map(|o| String::from_utf8_lossy(&o.stdout).contains("\"hang\"")).unwrap_or(false) {
+                    again += 1;
+                }
+            }
+            rep.infra_errors.push(format!(
+                "worker {part}/{nparts}: one case ran longer than {} s (wall) during stage after `{last_progress}` and was stopped; reproduced {again}/{reruns} times on its own; derive {derive}, wrap {wrap}, item: {}",
+                watchdog::LIMIT_S,
+                item.chars().take(600).collect::<String>()
+            ));
+            rep.evidence.label("watchdog:case_over_wall_limit");
+            continue;
+        }
         if !done {
             // the worker died: stack exhaustion / abort is itself an internal failure of the code under test
             rep.violations.push(Violation {
@@ -610,6 +1047,14 @@ pub fn run(ctx: &Ctx) -> Report {
             });
         }
     }
+    if ctx.tier == Tier::Quick || ctx.tier == Tier::Thorough {
+        for (cl, min) in CLASS_FLOORS {
+            let n = rep.evidence.labels.get(cl).copied().unwrap_or(0);
+            if n < min {
+                rep.infra_errors.push(format!("generator distribution: input class `{cl}` occurs {n} times, floor {min}"));
+            }
+        }
+    }
     // regression corpus (every minimised finding and the hand-written seeds): `<derive>\n<item>` files
     if let Ok(rd) = std::fs::read_dir(ctx.verif_dir.join("corpus/expand")) {
         let mut paths: Vec<_> = rd.flatten().map(|e| e.path()).collect();
@@ -618,7 +1063,7 @@ pub fn run(ctx: &Ctx) -> Report {
             let Ok(text) = std::fs::read_to_string(&p) else { continue };
             let mut it = text.splitn(2, '\n');
             let (Some(derive), Some(item)) = (it.next(), it.next()) else { continue };
-            let c = Case { derive: derive.trim().to_string(), item: item.trim().to_string() };
+            let c = Case::plain(derive.trim(), item.trim().to_string());
             rep.evidence.eval(1);
             rep.evidence.label("corpus");
             match eval_case(&c) {
@@ -701,25 +1146,31 @@ fn make_violation(v: &Value) -> Violation {
     Violation {
         sig: sig_for(v),
         summary: format!(
-            "internal failure at {} deriving {}: {}",
+            "internal failure at {} deriving {}{}: {}",
             v["loc"].as_str().unwrap_or("?"),
             v["derive"].as_str().unwrap_or("?"),
+            match v["wrap"].as_u64().unwrap_or(0) {
+                0 => "",
+                1 => " (field types in None-delimited groups, as from `$t:ty`)",
+                2 => " (attribute arguments in None-delimited groups, as from `$e:expr`)",
+                _ => " (field types and attribute arguments in None-delimited groups)",
+            },
             v["panic_msg"].as_str().unwrap_or("").chars().take(160).collect::<String>()
         ),
-        case: json!({"derive": v["derive"], "item": v["item"]}),
+        case: json!({"derive": v["derive"], "item": v["item"], "wrap": v["wrap"].as_u64().unwrap_or(0)}),
         expected: "Ok, Err(diagnostic) or a deliberate panic!/assert! diagnostic".into(),
         observed: format!("panic at {}:{}: {}", v["panic_file"].as_str().unwrap_or(""), v["panic_line"], v["panic_msg"].as_str().unwrap_or("")),
     }
 }
 
-fn fails_same(derive: &str, item: &str, loc: &str) -> bool {
+fn fails_same(derive: &str, item: &str, wrap: u8, loc: &str) -> bool {
     if derive == "<literal parser>" {
         return match dm::guarded(|| super::lit::dm_view(item)) {
             Err(p) => format!("{}:{}", p.file.rsplit("impl/src/").next().unwrap_or(&p.file), p.line) == loc,
             _ => false,
         };
     }
-    match eval_case(&Case { derive: derive.to_string(), item: item.to_string() }) {
+    match eval_case(&Case { derive: derive.to_string(), item: item.to_string(), wrap }) {
         Ok((_, Some(p))) => format!("{}:{}", p.file.rsplit("impl/src/").next().unwrap_or(&p.file), p.line) == loc,
         _ => false,
     }
@@ -729,8 +1180,9 @@ fn fails_same(derive: &str, item: &str, loc: &str) -> bool {
 fn minimise(v: Violation) -> Violation {
     let case0 = v.case.clone();
     let (Some(derive), Some(item)) = (case0["derive"].as_str(), case0["item"].as_str()) else { return v };
+    let wrap = case0["wrap"].as_u64().unwrap_or(0) as u8;
     let loc = v.summary.split(" at ").nth(1).and_then(|s| s.split(' ').next()).unwrap_or("").to_string();
-    if loc.is_empty() || !fails_same(derive, item, &loc) {
+    if loc.is_empty() || !fails_same(derive, item, wrap, &loc) {
         return v;
     }
     let mut cur = item.to_string();
@@ -748,7 +1200,7 @@ fn minimise(v: Violation) -> Violation {
                 let mut c = chars.clone();
                 c.remove(i);
                 let cand: String = c.into_iter().collect();
-                if fails_same(derive, &cand, &loc) {
+                if fails_same(derive, &cand, wrap, &loc) {
                     cur = cand;
                     progress = true;
                     break;
@@ -767,7 +1219,7 @@ fn minimise(v: Violation) -> Violation {
                     break;
                 }
                 let s = c.to_string();
-                if s.len() < cur.len() && syn::parse_str::<syn::DeriveInput>(&s).is_ok() && fails_same(derive, &s, &loc) {
+                if s.len() < cur.len() && syn::parse_str::<syn::DeriveInput>(&s).is_ok() && fails_same(derive, &s, wrap, &loc) {
                     cur = s;
                     found = true;
                     break;
@@ -779,7 +1231,7 @@ fn minimise(v: Violation) -> Violation {
         }
     }
     let mut v = v;
-    v.case = json!({"derive": derive, "item": cur});
+    v.case = json!({"derive": derive, "item": cur, "wrap": wrap});
     v
 }
 
@@ -822,10 +1274,11 @@ pub fn replay(_ctx: &Ctx, case: &Value) -> Report {
                 rep.violations.push(make_violation(&json!({"derive": derive, "item": item, "panic_msg": p.msg, "panic_file": p.file, "panic_line": p.line, "loc": loc})));
             }
         } else {
-            match eval_case(&Case { derive: derive.to_string(), item: item.to_string() }) {
+            let wrap = case["wrap"].as_u64().unwrap_or(0) as u8;
+            match eval_case(&Case { derive: derive.to_string(), item: item.to_string(), wrap }) {
                 Ok((_, Some(p))) => {
                     let loc = format!("{}:{}", p.file.rsplit("impl/src/").next().unwrap_or(&p.file), p.line);
-                    rep.violations.push(make_violation(&json!({"derive": derive, "item": item, "panic_msg": p.msg, "panic_file": p.file, "panic_line": p.line, "loc": loc})));
+                    rep.violations.push(make_violation(&json!({"derive": derive, "item": item, "wrap": wrap, "panic_msg": p.msg, "panic_file": p.file, "panic_line": p.line, "loc": loc})));
                 }
                 Ok(_) => {}
                 Err(e) => rep.infra_errors.push(e),
